@@ -92,6 +92,7 @@ fn main() {
         "C17" => drive(&props::fallback::C17, &opts),
         "C19" => drive(&props::chaos::C19, &opts),
         "C18" => drive(&props::health::C18, &opts),
+        "C20" => drive(&props::c20::C20, &opts),
         "C02" => drive(&props::ratelimiter::C02, &opts),
         "C15" => drive(&props::ratelimiter::C15, &opts),
         _ => {
